@@ -1,12 +1,13 @@
 # C14 - the series index always matches the data, for both index types.
 # spec: specs/index (Index, IndexGen); harness: harness/tsdb/zz_verif_index_test.go
-import json, random
+import json, random, hashlib, os
 from vcheck import Infra, log
 
 PKG = "tsdb"
 FILES = ["tsdb/zz_verif_index_test.go"]
 TEST = "TestVerifIndexReplay"
-INV = ["TypeOK", "C14_ListingsExact", "C14_SeriesFileExact", "C14_LevelsOrdered"]
+INV = ["TypeOK", "C14_ListingsExact", "C14_SeriesFileExact", "C14_LevelsOrdered", "C14_TagListingsBounded"]
+LINGER = '"tsiTagEntriesLinger"'   # the recorded deviation (known/C14.json)
 ALL_PREDS = ['"none"', '"k1=a"', '"k1!=a"', '"k2="', '"k2!="', '"k1=~^b?$"', '"k1!~a"', '"k2=~.+"', '"k1=aANDk2!=b"', '"k1!~.+ORk2=b"']
 
 
@@ -20,31 +21,41 @@ def consts(**kw):
 def model_check(ctx, sd):
     prop = "PROPERTY C14_PhysicalStutter"
     # A: deep physical layer - two series of one measurement, two shards (one of them rolled and compacted up to
-    #    level 3), re-creation after a database-wide drop (two ids per series)
-    ctx.write_cfg(sd, "MCA.cfg", "Spec", consts(MaxOps=ctx.pick(5, 6)), INV, "Bounded", extra=prop)
-    ctx.tlc_check(sd, "Index", "MCA.cfg", workers=8, timeout=ctx.pick(600, 1500), coverage=not ctx.quick())
-    # B: wide logical layer - two measurements, two time slots per shard (partial deletes), every drop predicate,
-    #    one log-file compaction per shard
+    #    level 3), re-creation after a database-wide drop (two ids per series); the code as it is (with the
+    #    recorded deviation: tag entries of dropped series linger in tsi1)
+    ctx.write_cfg(sd, "MCA.cfg", "Spec", consts(MaxOps=ctx.pick(4, 6), Dev=[LINGER]), INV, "Bounded", extra=prop)
+    r = ctx.tlc_check(sd, "Index", "MCA.cfg", workers=8, timeout=ctx.pick(900, 3000), coverage=not ctx.quick())
+    if r.get("zero_coverage"):
+        raise Infra("actions never taken in Index (config A): %s" % r["zero_coverage"])
+    # B: logical layer as designed (no deviation) - two time slots per shard (partial deletes, cache and TSM
+    #    spans, zombies of slot-wise deletes), one log-file compaction
     ctx.write_cfg(sd, "MCB.cfg", "Spec",
-                  consts(U={1, 4, 14}, PhysShards={1, 2}, Slots={0, 1}, MaxGen=2, MaxFiles=2, MaxLevel=2, MaxOps=ctx.pick(3, 4),
-                         DropMeas=['"m1"', '"*"'], DropPreds=ctx.pick(['"none"', '"k1=a"', '"k2!="', '"k1!~a"'], ALL_PREDS)),
-                  INV, "Bounded", extra=prop)
-    ctx.tlc_check(sd, "Index", "MCB.cfg", workers=8, timeout=ctx.pick(600, 1500))
-    # negative controls on the model: the binding of the two named properties to the physical layer is not vacuous
-    ctx.write_cfg(sd, "MCn1.cfg", "Spec", consts(Dev=['"compactDropsTombstones"']), INV, "Bounded", extra=prop)
-    r = ctx.tlc_check(sd, "Index", "MCn1.cfg", workers=8, timeout=600, expect_ok=False)
-    if not r["violated"]:
-        raise Infra("negative control: a level compaction that drops tombstones does not violate the model's properties")
-    ctx.write_cfg(sd, "MCn2.cfg", "Spec", consts(Dev=['"reopenKeepsInmem"'], PhysShards=set()), INV, "Bounded", extra=prop)
-    r = ctx.tlc_check(sd, "Index", "MCn2.cfg", workers=8, timeout=600, expect_ok=False)
+                  consts(Slots={0, 1}, MaxFiles=2, MaxLevel=2, MaxOps=ctx.pick(3, 5)), INV, "Bounded", extra=prop)
+    ctx.tlc_check(sd, "Index", "MCB.cfg", workers=8, timeout=ctx.pick(900, 3000))
+    # negative control on the model: a reopen that resurrects dropped series violates the named properties
+    ctx.write_cfg(sd, "MCn2.cfg", "Spec", consts(MaxOps=3, Dev=['"reopenKeepsInmem"'], PhysShards=set()), INV, "Bounded", extra=prop)
+    r = ctx.tlc_check(sd, "Index", "MCn2.cfg", workers=8, timeout=900, expect_ok=False)
     if not r["violated"]:
         raise Infra("negative control: a reopen that resurrects dropped series does not violate the model's properties")
-    if not ctx.quick():
-        for probe in ("Probe_DroppedInOneShardOnly", "Probe_Recreated", "Probe_Level3", "Probe_TombstoneInIndexFile"):
-            ctx.write_cfg(sd, "MCp.cfg", "Spec", consts(), [probe], "Bounded")
-            r = ctx.tlc_check(sd, "Index", "MCp.cfg", workers=8, timeout=600, expect_ok=False)
-            if not r["violated"]:
-                raise Infra("vacuity: %s is not reachable in the model" % probe)
+    if ctx.quick():
+        return
+    # C: two measurements, every drop predicate, DROP without FROM
+    ctx.write_cfg(sd, "MCC.cfg", "Spec",
+                  consts(U={1, 4, 14}, PhysShards={1, 2}, MaxFiles=2, MaxLevel=2, MaxOps=3, DropMeas=['"m1"', '"*"'], DropPreds=ALL_PREDS),
+                  INV, "Bounded", extra=prop)
+    ctx.tlc_check(sd, "Index", "MCC.cfg", workers=8, timeout=3000)
+    # negative control: a level compaction that loses tombstones brings a dropped series back (needs an older file)
+    ctx.write_cfg(sd, "MCn1.cfg", "Spec", consts(MaxOps=5, Dev=['"compactDropsTombstones"']), INV, "Bounded", extra=prop)
+    r = ctx.tlc_check(sd, "Index", "MCn1.cfg", workers=8, timeout=1800, expect_ok=False)
+    if not r["violated"]:
+        raise Infra("negative control: a level compaction that drops tombstones does not violate the model's properties")
+    # non-vacuity: the interesting situations are reachable within the bounds of config A / B
+    for probe, kw in (("Probe_DroppedInOneShardOnly", {}), ("Probe_Recreated", {}), ("Probe_Level3", {"MaxOps": 6}),
+                      ("Probe_TombstoneInIndexFile", {}), ("Probe_Zombie", {"Slots": {0, 1}, "MaxFiles": 2, "MaxLevel": 2})):
+        ctx.write_cfg(sd, "MCp.cfg", "Spec", consts(**kw), [probe], "Bounded")
+        r = ctx.tlc_check(sd, "Index", "MCp.cfg", workers=8, timeout=1800, expect_ok=False)
+        if not r["violated"]:
+            raise Infra("vacuity: %s is not reachable in the model" % probe)
 
 
 def universes(seed):
@@ -64,7 +75,7 @@ def generate(ctx, sd):
     behs = []
     for i, u in enumerate(universes(ctx.seed)):
         gc = {"U": u, "Shards": {1, 2}, "PhysShards": {1, 2}, "Slots": {0, 1}, "MaxGen": 99, "MaxFiles": 99, "MaxLevel": 7,
-              "MaxOps": 0, "DropMeas": ['"m1"', '"m2"', '"*"'], "DropPreds": ALL_PREDS, "Dev": [], "GenLen": glen}
+              "MaxOps": 0, "DropMeas": ['"m1"', '"m2"', '"*"'], "DropPreds": ALL_PREDS, "Dev": [LINGER], "GenLen": glen}
         ctx.write_cfg(sd, "G%d.cfg" % i, "GSpec", gc, extra="INVARIANT Emit")
         b = ctx.tlc_generate(sd, "IndexGen", "G%d.cfg" % i, num=per, depth=glen + 1, seed=ctx.seed * 10 + i, timeout=900)[:per]
         behs += b
@@ -81,9 +92,15 @@ def run(ctx):
         p = ctx.write_json("beh-%s.json" % label, {"behaviours": behs, "partn": partn, "workers": 4})
         return ctx.go_test(PKG, FILES, "^%s$" % TEST, env={"VERIF_IN": p, "GOMAXPROCS": "8"}, timeout=1700, label=label)
 
+    confirmed = {}
+
     def confirm(rp):
-        recs, out, rc = replay([rp["behaviour"]], rp.get("partn", 1), "confirm")
-        return any(r.get("k") == "mismatch" for r in recs)
+        # one re-run per failing behaviour (several signatures usually come from the same step of one behaviour)
+        key = hashlib.sha1(json.dumps(rp["behaviour"], sort_keys=True).encode()).hexdigest()
+        if key not in confirmed:
+            recs, out, rc = replay([rp["behaviour"]], rp.get("partn", 1), "confirm")
+            confirmed[key] = any(r.get("k") == "mismatch" and not r["sig"].startswith("dev:") for r in recs)
+        return confirmed[key]
 
     if ctx.replay:
         rp = json.load(open(ctx.replay))["replay"]
@@ -91,7 +108,8 @@ def run(ctx):
         done = ctx.process(recs, out, rc, TEST, None)
         return ctx.finish("model_checking", {"replayed_behaviours": done.get("behaviours", 0)})
 
-    model_check(ctx, sd)
+    if not os.environ.get("VERIF_C14_SKIP_MC"):     # development aid for the mutation self-test only
+        model_check(ctx, sd)
     behs = generate(ctx, sd)
     tot = {}
     # one TSI partition (the model's single file list per shard) and the default eight
